@@ -4,9 +4,9 @@
   Model: JRV.Model.Wire (+ Headers.sendContent for the client's header lines).
   UTF-8 is Lean core's verified codec.  gzip and `urlparse` are outside the model (parameters:
   the theorems start from the decompressed byte stream and from a parsed URL record).
+  The companion theorems of the extracted facts (`C17_gen_*`) are in JRV/Properties/C17Gen.lean.
 -/
 import JRV.Model.Wire
-import JRV.Generated
 
 set_option linter.unusedSimpArgs false
 
@@ -63,22 +63,139 @@ private theorem readTotal_le (m : Nat) : ∀ (reads : List Nat) (remaining : Nat
 /- ---------- property theorems ---------- -/
 
 /-- Every message declares a Content-Length equal to the UTF-8 byte length of its body and the
-    configured content type: client request, HTTP server reply, CGI reply. -/
+    configured content type: client request, HTTP server reply (a text, or `None` sent as ""), CGI
+    reply of the default (UTF-8) handler. -/
 theorem C17_content_length (strOf : PyVal → String) (ct ua body : String)
-    (extra : Headers.HDict) (stack : List Headers.HDict) :
+    (extra : Headers.HDict) (stack : List Headers.HDict) (response : Option String) :
     (clientHeaders strOf ct ua body extra stack).take 2 =
       [("Content-Type", ct), ("Content-Length", toString body.utf8ByteSize)] ∧
-    (serverReply ct body).1 = [("Content-type", ct), ("Content-length", toString body.utf8ByteSize)] ∧
-    (serverReply ct body).2.length = body.utf8ByteSize ∧
-    (cgiReply ct body).1 = [("Content-Type", ct), ("Content-Length", toString body.utf8ByteSize)] ∧
-    (cgiReply ct body).2.length = body.utf8ByteSize := by
+    (serverReply ct response).1 =
+      [("Content-type", ct), ("Content-length", toString (response.getD "").utf8ByteSize)] ∧
+    (serverReply ct response).2.length = (response.getD "").utf8ByteSize ∧
+    (serverReply ct none).1 = [("Content-type", ct), ("Content-length", "0")] ∧ (serverReply ct none).2 = [] ∧
+    cgiReply "UTF-8" ct body =
+      .ok ([("Content-Type", ct), ("Content-Length", toString body.utf8ByteSize)], toBytes body) ∧
+    (toBytes body).length = body.utf8ByteSize := by
   have hl := toBytes_length body
-  simp [clientHeaders, Headers.sendContent, serverReply, cgiReply, hl]
+  have hr := toBytes_length (response.getD "")
+  have hu : cgiEncode "UTF-8" body = .ok (toBytes body) := by
+    have : (lowerName "UTF-8" == "utf-8") = true := by decide
+    simp [cgiEncode, this, pure, Except.pure]
+  refine ⟨?_, ?_, ?_, ?_, ?_, ?_, hl⟩
+  · simp [clientHeaders, Headers.sendContent, hl]
+  · simp [serverReply, hr]
+  · simp [serverReply, hr]
+  · have h0 : toBytes "" = [] := by decide
+    simp [serverReply, h0]
+    decide
+  · have h0 : toBytes "" = [] := by decide
+    simp [serverReply, h0]
+  · simp [cgiReply, hu, hl, bind, Except.bind, pure, Except.pure]
 
-/-- The emitted bytes decode back to the body (so the declared length is the length of what is sent). -/
-theorem C17_body_bytes (ct body : String) :
-    fromBytes (serverReply ct body).2 = .ok body ∧ fromBytes (cgiReply ct body).2 = .ok body := by
-  simp [serverReply, cgiReply, fromBytes_toBytes]
+/-- Whatever way the `try` block of `do_POST` ends — bad Content-Length header, short or undecodable
+    body, dispatcher returning a text / "" / `None`, dispatcher raising — the reply carries exactly the
+    configured content type and a Content-length equal to the number of body bytes written; the
+    status is 200 when the dispatcher returned and 500 otherwise. -/
+theorem C17_do_post_framing (m : Nat) (ct faultText : String) (cl : Option Nat) (stream : Bytes)
+    (reads : List Nat) (dispatch : String → TryOutcome) :
+    (doPost m ct faultText cl stream reads dispatch).2.1 =
+      [("Content-type", ct), ("Content-length",
+        toString (doPost m ct faultText cl stream reads dispatch).2.2.length)] ∧
+    (((doPost m ct faultText cl stream reads dispatch).1 = 200 ∧
+        ∃ n data resp, cl = some n ∧ serverBody m n stream reads = .ok data ∧
+          dispatch data = .returned resp ∧
+          (doPost m ct faultText cl stream reads dispatch).2.2 = toBytes (resp.getD "")) ∨
+     ((doPost m ct faultText cl stream reads dispatch).1 = 500 ∧
+        (doPost m ct faultText cl stream reads dispatch).2.2 = toBytes faultText)) := by
+  unfold doPost
+  cases cl with
+  | none => simp [doPostReply, serverReply]
+  | some n =>
+    cases hb : serverBody m n stream reads with
+    | error e => simp [hb, doPostReply, serverReply]
+    | ok data =>
+      cases hd : dispatch data with
+      | raised => simp [hb, hd, doPostReply, serverReply]
+      | returned resp => simp [hb, hd, doPostReply, serverReply]
+
+/-- CGI handler with any modelled codec: when the encode succeeds the declared Content-Length is
+    the length of the bytes written and the content type is the configured one; when it raises
+    nothing is emitted (the result is the error, no header list exists). -/
+theorem C17_cgi_length (enc ct body : String) (h : List (String × String)) (b : Bytes)
+    (hok : cgiReply enc ct body = .ok (h, b)) :
+    h = [("Content-Type", ct), ("Content-Length", toString b.length)] ∧ cgiEncode enc body = .ok b := by
+  unfold cgiReply at hok
+  cases he : cgiEncode enc body with
+  | error e => simp [he, bind, Except.bind] at hok
+  | ok b' =>
+    simp only [he, bind, Except.bind, pure, Except.pure, Except.ok.injEq, Prod.mk.injEq] at hok
+    obtain ⟨h1, h2⟩ := hok
+    subst h2
+    exact ⟨h1.symm, rfl⟩
+
+/-- The one-byte codecs: the bytes written are the code points of the text, one per character. -/
+theorem C17_cgi_single_byte (body : String) (b : Bytes)
+    (hok : cgiEncode "latin-1" body = .ok b ∨ cgiEncode "ascii" body = .ok b) :
+    b.length = body.length ∧ b.map (·.toNat) = body.toList.map (·.toNat) := by
+  have key : ∀ (l : List Char), l.all (fun c => decide (c.toNat < 256)) = true →
+      (l.map fun c => UInt8.ofNat c.toNat).map (·.toNat) = l.map (·.toNat) := by
+    intro l hl
+    induction l with
+    | nil => rfl
+    | cons c cs ih =>
+      simp only [List.all_cons, Bool.and_eq_true, decide_eq_true_eq] at hl
+      simp only [List.map_cons, List.cons.injEq]
+      refine ⟨?_, ih hl.2⟩
+      show (UInt8.ofNat c.toNat).toNat = c.toNat
+      simp only [UInt8.toNat_ofNat']
+      omega
+  have weaken : ∀ (l : List Char), l.all (fun c => decide (c.toNat < 128)) = true →
+      l.all (fun c => decide (c.toNat < 256)) = true := by
+    intro l hl
+    simp only [List.all_eq_true, decide_eq_true_eq] at hl ⊢
+    intro c hc
+    have := hl c hc
+    omega
+  rcases hok with hok | hok
+  · have e1 : (lowerName "latin-1" == "utf-8" || lowerName "latin-1" == "utf8" || lowerName "latin-1" == "utf_8") = false := by decide
+    have e2 : (lowerName "latin-1" == "ascii" || lowerName "latin-1" == "us-ascii") = false := by decide
+    have e3 : (lowerName "latin-1" == "latin-1" || lowerName "latin-1" == "latin1" || lowerName "latin-1" == "iso-8859-1") = true := by decide
+    simp only [cgiEncode, e1, e2, e3] at hok
+    by_cases hall : body.toList.all (fun c => decide (c.toNat < 256)) = true
+    · simp only [hall, Bool.false_eq_true, ↓reduceIte, pure, Except.pure, Except.ok.injEq] at hok
+      subst hok
+      exact ⟨by simp [String.length_toList], key _ hall⟩
+    · simp [hall, raise] at hok
+  · have e1 : (lowerName "ascii" == "utf-8" || lowerName "ascii" == "utf8" || lowerName "ascii" == "utf_8") = false := by decide
+    have e2 : (lowerName "ascii" == "ascii" || lowerName "ascii" == "us-ascii") = true := by decide
+    simp only [cgiEncode, e1, e2] at hok
+    by_cases hall : body.toList.all (fun c => decide (c.toNat < 128)) = true
+    · simp only [hall, Bool.false_eq_true, ↓reduceIte, pure, Except.pure, Except.ok.injEq] at hok
+      subst hok
+      exact ⟨by simp [String.length_toList], key _ (weaken _ hall)⟩
+    · simp [hall, raise] at hok
+
+/-- The emitted bytes decode back to the body (so the declared length is the length of what is
+    sent): a returned text, `None` (sent as the empty body), the fault text of the 500 reply, the
+    CGI reply. -/
+theorem C17_body_bytes (ct body faultText : String) (response : Option String) :
+    fromBytes (serverReply ct response).2 = .ok (response.getD "") ∧
+    fromBytes (serverReply ct none).2 = .ok "" ∧
+    fromBytes (doPostReply ct faultText .raised).2.2 = .ok faultText ∧
+    fromBytes (doPostReply ct faultText (.returned response)).2.2 = .ok (response.getD "") ∧
+    (∀ h b, cgiReply "UTF-8" ct body = .ok (h, b) → fromBytes b = .ok body) := by
+  refine ⟨?_, ?_, ?_, ?_, ?_⟩
+  · simp [serverReply, fromBytes_toBytes]
+  · simpa [serverReply] using fromBytes_toBytes ""
+  · simp [doPostReply, serverReply, fromBytes_toBytes]
+  · simp [doPostReply, serverReply, fromBytes_toBytes]
+  · intro h b hok
+    have hu : cgiEncode "UTF-8" body = .ok (toBytes body) := by
+      have : (lowerName "UTF-8" == "utf-8") = true := by decide
+      simp [cgiEncode, this, pure, Except.pure]
+    simp only [cgiReply, hu, bind, Except.bind, pure, Except.pure, Except.ok.injEq, Prod.mk.injEq] at hok
+    rw [← hok.2]
+    exact fromBytes_toBytes body
 
 /-- The byte length is not the character count: a non-ASCII body shows the difference the
     conversion order protects against. -/
@@ -181,16 +298,21 @@ theorem C17_scheme (u : Url) :
     · have : splitUnix "unix+http" = (true, "http") := by decide
       simp [this, Except.isOk, Except.toBool, pure, Except.pure]
 
-/-- Tie to the source. -/
-theorem C17_gen_lenAfterToBytes : Generated.lenAfterToBytes = some (true, true, true) := by decide
-theorem C17_gen_serverDecodesAfterJoin : Generated.serverDecodesAfterJoin = some true := by decide
-theorem C17_gen_clientDecodesAfterJoin : Generated.clientDecodesAfterJoin = some true := by decide
-theorem C17_gen_maxChunk : Generated.maxChunkSize = some maxChunkSize := by decide
-theorem C17_gen_contentTypeFromConfig : Generated.contentTypeFromConfig = some (true, true, true) := by decide
-theorem C17_gen_schemes : Generated.acceptedSchemes = some (["http", "https"], "unix+") := by decide
-
 /- Non-vacuity: a schedule of short reads that delivers a 2-byte body one byte at a time. -/
 example : readTotal 10 2 [0xC3, 0xA9] [1, 1] = 2 := by decide
 example : readLoop 10 2 [0xC3, 0xA9] [1, 1] = [[0xC3], [0xA9]] := by decide
+/- Non-vacuity of `C17_cgi_length` / `C17_cgi_single_byte`: "é" is one byte in latin-1, and is rejected by ascii. -/
+example : cgiReply "latin-1" "application/json" "é" =
+    .ok ([("Content-Type", "application/json"), ("Content-Length", "1")], [0xE9]) := by decide +kernel
+example : cgiEncode "latin-1" "é" = .ok [0xE9] ∧ (cgiEncode "ascii" "é").isOk = false ∧ cgiEncode "ascii" "a" = .ok [0x61] := by
+  decide +kernel
+/- Both branches of `C17_do_post_framing` are inhabited: an echoing dispatcher on a body read in two
+   pieces (200), and the same body cut short (undecodable prefix → 500 with the fault text). -/
+example : doPost 10 "t" "F" (some 2) [0xC3, 0xA9] [1, 1] (fun d => .returned (some d)) =
+    (200, [("Content-type", "t"), ("Content-length", "2")], [0xC3, 0xA9]) := by decide +kernel
+example : doPost 10 "t" "F" (some 2) [0xC3, 0xA9] [1] (fun d => .returned (some d)) =
+    (500, [("Content-type", "t"), ("Content-length", "1")], [0x46]) := by decide +kernel
+example : doPost 10 "t" "F" (some 2) [0xC3, 0xA9] [2] (fun _ => .returned none) =
+    (200, [("Content-type", "t"), ("Content-length", "0")], []) := by decide +kernel
 
 end JRV.Props
